@@ -245,6 +245,8 @@ func genRandom(n int, fam string, seed int64, path string, target string) {
 		nc := 1 + r.Intn(2)*r.Intn(4)
 		if fam == "result" {
 			nc = 2 + r.Intn(3)
+		} else if r.Intn(4) == 0 {
+			nc = 3 + r.Intn(2) // longer histories: what one management step leaves behind meets the next one
 		}
 		cur := append([]Rule{}, rules...)
 		next := nr
@@ -311,6 +313,19 @@ func genRandom(n int, fam string, seed int64, path string, target string) {
 						}
 					}
 				}
+			}
+			if j > 0 && len(cur) >= 2 && r.Intn(3) == 0 {
+				// one more incremental text behind whatever came before (also behind a removal): an installed rule that
+				// moves (new salience) together with an installed rule that keeps its place (same salience)
+				p := r.Perm(len(cur))
+				mv, keep := cur[p[0]], cur[p[1]]
+				mv.Sal = randSal(r, style)
+				ch := []Rule{mv, keep}
+				if r.Intn(2) == 0 {
+					ch = []Rule{keep, mv}
+				}
+				pre = append(pre, dispatch.Update{Op: "incr", Rules: ch})
+				cur[p[0]] = mv
 			}
 			c := genCall(r, fam, cur, tgt)
 			c.Pre = pre
